@@ -60,7 +60,7 @@ def cases(tier, seed):
     base += designs.carg_cases((1, 3)) if tier == 'quick' else designs.carg_cases((1, 2, 3, 4)) + designs.constop_cases()
     # operands wider than a machine word (a lowering that works on 64-bit chunks has its boundaries here)
     wide = [dict(c, K=1) for c in designs.op_cases([65, 72] if tier == 'quick' else [63, 64, 65, 72, 128, 130], ops='+-<>=w', mul_max=0)]
-    wide += [dict(c, K=1) for c in designs.op_cases([33, 40], ops='*', mul_max=40)] if tier != 'quick' else []
+    # (products of that width are out of reach: a synthesized 33x33-bit multiplier against bvmul does not finish)
     for i, c in enumerate(wide):
         out.append(dict(c, merge=bool(i % 2), uwb=False, wb='same'))
     for i, c in enumerate(base):
